@@ -209,8 +209,38 @@ class Executor:
             attrs = [n[2:] for n in self.heap_names if n.startswith("a:")]
             ax = T.base_axioms() + T.heap_wf_axioms(attrs)
             ax += self.registry.spec_axioms()
+            ax += self.class_axioms()
             self._ax_key, self._ax = key, ax
         return self._ax
+
+    def class_axioms(self) -> List[Any]:
+        """refinement axioms of the node classes this (Layer-2) contract relies on; only those
+        whose own proof succeeded in this run (PYVC_PROVEN), all of them in a stand-alone run"""
+        uses = getattr(self.contract, "uses_axioms_of", [])
+        if not uses:
+            return []
+        import json
+        import os
+
+        from .axioms import class_axiom
+
+        proven = os.environ.get("PYVC_PROVEN")
+        allowed = set(json.loads(proven)) if proven else None
+        out: List[Any] = []
+        self.axioms_used = []
+        self.axioms_withdrawn = []
+        for t in uses:
+            c = self.registry.contract_for(t)
+            if c is None:
+                raise SidecarError(f"{self.contract.target} relies on the axiom of {t}, which has no contract")
+            if allowed is not None and t not in allowed:
+                self.axioms_withdrawn.append(t)
+                continue
+            out.extend(class_axiom(c))
+            self.axioms_used.append(t)
+        if hasattr(self.contract, "extra_axioms"):
+            out.extend(self.contract.extra_axioms(self))
+        return out
 
     # -- allocation ----------------------------------------------------------
     def new_obj(self, st: State, klass, hint="obj"):
@@ -1055,6 +1085,24 @@ class Executor:
             return rg
         if self.registry.lookup_function(self.module, name) is not None or name in BUILTIN_CALLS:
             return SV("func", name)
+        # module constant that is a tuple of classes (e.g. CHECK_ONLY_METHODS)
+        try:
+            cst = source.module_constant(self.module, name)
+        except source.SourceError:
+            cst = None
+        if isinstance(cst, ast.Tuple) and cst.elts and all(isinstance(e, ast.Name) for e in cst.elts):
+            names = [T.classes().local(e.id, self.module) for e in cst.elts]
+            # classes imported from another module keep that module's theory name
+            imp = self.registry.module_imports(self.module)
+            res = []
+            for e, n in zip(cst.elts, names):
+                src = imp.get(e.id)
+                if src:
+                    n = T.classes().local(e.id, src.split(":")[0])
+                if n not in T.classes():
+                    raise Unsupported(f"class {e.id} in constant {name} is not a named class")
+                res.append(SV("class", K(n)))
+            return SV("tuple", res)
         raise Unsupported(f"global name `{name}` at {self.where(node)} has no model")
 
     def expr_Attribute(self, node, st):
